@@ -51,6 +51,7 @@ type Unit struct {
 	closureN int
 	closures map[string]*ClosureV
 	specErrs []string
+	nowN int
 	measure0 *Term
 	retVals []Value // merged results of the top-level function (for replay)
 	relevant map[string]bool // nil = every family; else families worth copying in struct appends
@@ -806,6 +807,7 @@ func payloadKind(t types.Type) string {
 }
 
 func (u *Unit) makeInterface(v Value, from, to types.Type) Value {
+	from = types.Default(from) // untyped constants box as their default type
 	tag := u.ctx.Tag("type:" + typeKey(from))
 	k := payloadKind(from)
 	if k == "?" {
